@@ -16,3 +16,101 @@ pub fn valid_polygon_case(cx: &mut Ctx, _n: u64, case: &Value, p: &Polygon<f64>)
         Err(p) => cx.bad("C14", "polygon_is_valid", case, json!({"got": format!("PANIC {p}")})),
     }
 }
+
+fn ring_no(s: &str) -> Vec<i64> {
+    // ring roles named inside an error's Debug text: Exterior -> 0, Interior(k) -> k + 1
+    let mut out = vec![];
+    let mut rest = s;
+    loop {
+        let e = rest.find("Exterior");
+        let i = rest.find("Interior(");
+        match (e, i) {
+            (None, None) => break,
+            (Some(a), b) if b.map_or(true, |b| a < b) => { out.push(0); rest = &rest[a + 8..]; }
+            (_, Some(b)) => {
+                let tail = &rest[b + 9..];
+                let end = tail.find(')').unwrap();
+                out.push(tail[..end].parse::<i64>().unwrap() + 1);
+                rest = &tail[end..];
+            }
+            _ => break,
+        }
+    }
+    out
+}
+
+/// case {op:"valid", g, valid, few, self, notcontained, line, area [, overlap, online]}
+pub fn valid_case(cx: &mut Ctx, n: u64, case: &Value) {
+    use crate::gj::{self, G};
+    if !cx.wants("C14") {
+        return;
+    }
+    if n % 1499 == 0 {
+        cx.sample(case.clone());
+    }
+    let want = case["valid"].as_bool().unwrap();
+    cx.count(if want { "valid_cases" } else { "invalid_cases" }, 1);
+    let g = gj::parse(&case["g"]);
+    let ids = |k: &str| -> Vec<i64> { case[k].as_array().unwrap().iter().filter_map(|v| v.as_i64()).collect() };
+    let pairs = |k: &str| -> Vec<(i64, i64)> { case[k].as_array().unwrap().iter().map(|v| (v[0].as_i64().unwrap(), v[1].as_i64().unwrap())).collect() };
+    match &g {
+        G::Polygon(p) => {
+            let r = guard(|| (p.is_valid(), p.validation_errors().iter().map(|e| format!("{e:?}")).collect::<Vec<_>>()));
+            match r {
+                Ok((v, errs)) => {
+                    if v == want { cx.ok("polygon_is_valid"); } else { cx.bad("C14", "polygon_is_valid", case, json!({"got": v, "want": want, "errors": errs})); }
+                    if errs.is_empty() == want { cx.ok("validation_errors_iff_invalid"); } else { cx.bad("C14", "validation_errors_iff_invalid", case, json!({"errors": errs, "want_valid": want})); }
+                    // every reported error names rings that really have a defect of that kind
+                    let (few, slf, notc, line, area) = (ids("few"), ids("self"), ids("notcontained"), pairs("line"), pairs("area"));
+                    for e in &errs {
+                        let rings = ring_no(e);
+                        let in_pair = |set: &Vec<(i64, i64)>| rings.len() == 2 && set.iter().any(|(a, b)| (*a == rings[0] && *b == rings[1]) || (*a == rings[1] && *b == rings[0]));
+                        let ok = if e.starts_with("TooFewPointsInRing") { few.contains(&rings[0]) || slf.contains(&rings[0]) }
+                            else if e.starts_with("SelfIntersection") { slf.contains(&rings[0]) }
+                            else if e.starts_with("InteriorRingNotContained") { notc.contains(&rings[0]) }
+                            else if e.starts_with("IntersectingRingsOnALine") { in_pair(&line) }
+                            else if e.starts_with("IntersectingRingsOnAnArea") { in_pair(&area) }
+                            else { false };
+                        if ok { cx.ok("reported_error_is_real"); } else { cx.bad("C14", "reported_error_is_real", case, json!({"error": e, "all_errors": errs})); }
+                    }
+                    // through the Geometry enum and as a one-member MultiPolygon
+                    let gv = guard(|| g.geometry().is_valid());
+                    if gv == Ok(want) { cx.ok("geometry_enum_is_valid"); } else { cx.bad("C14", "geometry_enum_is_valid", case, json!({"got": format!("{gv:?}"), "want": want})); }
+                    let mv = guard(|| geo::MultiPolygon::new(vec![p.clone()]).is_valid());
+                    if mv == Ok(want) { cx.ok("multipolygon_of_one_is_valid"); } else { cx.bad("C14", "multipolygon_of_one_is_valid", case, json!({"got": format!("{mv:?}"), "want": want})); }
+                    // a non-finite coordinate makes any polygon invalid, and the error names ring and index
+                    if want {
+                        let mut e = p.exterior().0.clone();
+                        let k = (n as usize) % (e.len() - 1).max(1);
+                        let bad = [f64::NAN, f64::INFINITY, f64::NEG_INFINITY][(n % 3) as usize];
+                        if k == 0 { let l = e.len() - 1; e[l].x = bad; }
+                        e[k].x = bad;
+                        let q = Polygon::new(geo::LineString::new(e), p.interiors().to_vec());
+                        let r = guard(|| (q.is_valid(), format!("{:?}", q.validation_errors())));
+                        match r {
+                            Ok((false, errs)) if errs.contains("NonFiniteCoord(Exterior") => cx.ok("non_finite_is_invalid"),
+                            other => cx.bad("C14", "non_finite_is_invalid", case, json!({"what": format!("exterior[{k}].x = {bad}"), "got": format!("{other:?}")})),
+                        }
+                    }
+                }
+                Err(pn) => cx.bad("C14", "polygon_is_valid", case, json!({"got": format!("PANIC {pn}")})),
+            }
+        }
+        G::MultiPolygon(mp) => {
+            let r = guard(|| (mp.is_valid(), mp.validation_errors().iter().map(|e| format!("{e:?}")).collect::<Vec<_>>()));
+            match r {
+                Ok((v, errs)) => {
+                    if v == want { cx.ok("multipolygon_is_valid"); } else { cx.bad("C14", "multipolygon_is_valid", case, json!({"got": v, "want": want, "errors": errs})); }
+                    if errs.is_empty() == want { cx.ok("validation_errors_iff_invalid"); } else { cx.bad("C14", "validation_errors_iff_invalid", case, json!({"errors": errs, "want_valid": want})); }
+                    for e in &errs {
+                        let ok = (e.starts_with("ElementsOverlaps") && case["overlap"].as_bool().unwrap())
+                            || (e.starts_with("ElementsTouchOnALine") && case["online"].as_bool().unwrap());
+                        if ok { cx.ok("reported_error_is_real"); } else { cx.bad("C14", "reported_error_is_real", case, json!({"error": e, "all_errors": errs})); }
+                    }
+                }
+                Err(pn) => cx.bad("C14", "multipolygon_is_valid", case, json!({"got": format!("PANIC {pn}")})),
+            }
+        }
+        _ => cx.count("valid_unhandled_type", 1),
+    }
+}
